@@ -169,7 +169,7 @@ func (e *Env) RMaps() {
 		e.Run.Violation("R-MAPS", "decorateSelectorExpr shape", "", err.Error())
 	}
 	e.Run.Analysed("map registrations", n)
-	e.Run.Floor("R-MAPS", "allocation/registration facts", n, 550)
+	e.Run.Floor("R-MAPS", "allocation/registration facts", n, 450)
 }
 
 // ---------------------------------------------------------------------------------------------
@@ -341,7 +341,7 @@ func (e *Env) RMemo() {
 		})
 	}
 	e.Run.Analysed("restoreNode call sites", calls)
-	e.Run.Floor("R-MEMO", "restoreNode call sites", calls, 98)
+	e.Run.Floor("R-MEMO", "restoreNode call sites", calls, 80)
 }
 
 func (e *Env) underExtras(c *schema.Ctx, fd *ast.FuncDecl, call *ast.CallExpr) bool {
@@ -488,7 +488,7 @@ func (e *Env) RAssert() {
 		}
 	}
 	e.Run.Analysed("type assertions", n)
-	e.Run.Floor("R-ASSERT", "assertion facts", n, 280)
+	e.Run.Floor("R-ASSERT", "assertion facts", n, 220)
 }
 
 func contains(xs []string, x string) bool {
